@@ -1,5 +1,6 @@
 import Poly.Proofs.GovQuorum
 import Poly.Spec.Quorum
+import Poly.Generated.GovKeys
 /-!
 # C32 — Governance approvals need two thirds of distinct current validators
 
@@ -102,6 +103,23 @@ theorem ledger_keys_separate (H : Bytes → Bytes) (m1 m2 : String) (i1 i2 : Byt
         (List.mem_map_of_mem h1) (List.mem_map_of_mem h2) hm
       exact append_inj_of_not_prefix _ _ i1 i2 hp.1 hp.2 hmsg
   · right; exact ⟨_, _, hmsg, hk⟩
+
+/-- On the source itself (table regenerated from /repo by extract/govkeys on every run): the calls of
+CheckConsensusSigns in the governance contracts are exactly the ten approval handlers of the model, with these method
+strings; the approval ledgers are cleared exactly by UnRegisterCandidate and UpdateSideChain. -/
+theorem source_call_sites_are_the_modelled_methods :
+    Poly.Generated.GovKeys.ccsCalls.map (fun r => r.2.2) = approvalMethods ∧
+    Poly.Generated.GovKeys.clears.map (fun r => (r.2.1, r.2.2)) =
+      [("UnRegisterCandidate", ["approveCandidate"]), ("UpdateSideChain", ["approveUpdateSideChain"])] := by decide
+
+/-- Requests identified by a 64-bit number (chain ids, relayer / state-validator request numbers) have different ledger
+keys for different numbers or different methods, unless the hash collides. -/
+theorem numbered_requests_separate (H : Bytes → Bytes) (m1 m2 : String) (a b : Nat)
+    (h1 : m1 ∈ approvalMethods) (h2 : m2 ∈ approvalMethods) (ha : a < 2 ^ 64) (hb : b < 2 ^ 64)
+    (hk : ledgerKey H m1 (u64le a) = ledgerKey H m2 (u64le b)) : (m1 = m2 ∧ a = b) ∨ LedgerCollision H := by
+  rcases ledger_keys_separate H m1 m2 _ _ h1 h2 hk with ⟨hm, hi⟩ | hc
+  · exact Or.inl ⟨hm, u64le_inj a b (by omega) (by omega) hi⟩
+  · exact Or.inr hc
 
 /-- Non-vacuity (tests on literals): 4 validators, ceil(8/3) = 3: the third distinct validator applies the action, a
 repeated approver and an outsider do not. -/
